@@ -305,11 +305,11 @@ class ofp_flow_mod_table_id (of.ofp_flow_mod):
 
   @splice_table_id
   def unpack (self, raw, offset=0):
-    return super(ofp_flow_mod_table_id, self).unpack()
+    return super(ofp_flow_mod_table_id, self).unpack(raw, offset)
 
-  @splice_table_id
   def __eq__ (self, other):
-    return super(ofp_flow_mod_table_id, self).__eq__(other)
+    if not super(ofp_flow_mod_table_id, self).__eq__(other): return False
+    return self.table_id == other.table_id
 
   def show (self, prefix=''):
     outstr = ''
